@@ -595,6 +595,25 @@ class World:
         if ops is None:
             self.probe('scaled_twin_not_expressible')
             return
+        # only lenses of sane proportions: after a dozen scalings mixed with
+        # palette values (radius 1e-3, gap 1e4) a "lens" has a focal length
+        # of 1e-18 and every traced number is round-off
+        m = self.model
+        radii = [abs(s_['radius']) for s_ in m.surfs
+                 if math.isfinite(s_['radius'])]
+        gaps = [abs(s_['t']) for s_ in m.surfs[:-1]
+                if math.isfinite(s_['t'])]
+        size = sum(gaps)
+        f2 = self.try_read(self.lens.paraxial.f2)
+        try:
+            f2 = abs(float(f2))
+        except Exception:
+            f2 = float('nan')
+        if not (1e-2 <= size <= 1e6 and
+                all(1e-4 * size <= r <= 1e6 * size for r in radii) and
+                math.isfinite(f2) and 1e-4 * size <= f2 <= 1e6 * size):
+            self.probe('scaled_twin_skipped_lens_out_of_proportion')
+            return
         try:
             twin = sut.new_lens(ops, share=False)
         except Exception:
